@@ -47,13 +47,20 @@ RULE = (
 )
 ASSUMPTIONS = [
     "the oracle is the class of the escaping exception (btclib.exceptions.BTClibException or not), bool-ness of a predicate's answer, "
-    "BytesIO.tell() after a successful parse and wall-clock termination; no expected value is computed, so no reference model is used",
+    "BytesIO.tell() after a successful parse and termination within a CPU-time budget (5 s soft per call; 60 s alone in a fresh "
+    "interpreter decides a hang, for inputs of at most 64 KiB); no expected value is computed, so no reference model is the oracle. "
+    "rv/ref/descsum.py, rv/ref/base58.py and rv/ref/bech32.py only recompute checksums of mutated payloads (generator aids, self-tested "
+    "on descriptor_checksums.json, base58_encode_decode.json, bip173_bip350.json)",
     "seeds are produced with the library's own constructors/serializers and from vendored vectors: a seed the entry point refuses is "
     "dropped and counted, never judged",
     "arguments are of the declared types (bytes/str/bytearray/memoryview for Octets/String, BytesIO for BinaryData, Mapping for "
     "from_dict with arbitrary JSON values inside); a top-level JSON value that is not an object is recorded as a statistic only",
     "encodings judged for stream position are those that are self-delimiting by specification; EOF-delimited ones are exempt and "
-    "listed in evidence (stats exempt-eof:*)",
+    "listed in evidence (stats exempt-eof:*): script.parse and taproot.parse (a script is the whole of its octets), BasicBlockFilter.parse "
+    "(BIP158: the set runs to the end of its container), dsa.Sig.parse (strict DER: a byte after the sequence is not a DER signature), "
+    "Version.parse (optional trailing relay flag; takes octets only)",
+    "verify-style predicates are those the property lists (signature, proof, address/script-type, merkle branch, filter); functions that "
+    "document a refusal for malformed input (taproot.check_output_pubkey, proof_of_work.is_negative_bits) are not held to totality",
 ]
 
 SOFT_S = 5.0
@@ -1702,10 +1709,10 @@ def plan(tier: str, seed: int) -> list[dict]:
         for i in range(n):
             specs.append({"name": f"{grp}-{i}", "fn": "shard_entries", "group": grp, "part": i, "of": n,
                           "sys_cap": 900 if q else 6000, "quota": 1500 if q else 40000,
-                          "_budget_s": 70 if q else 1100, "_timeout_s": 900 if q else 3600})
+                          "_budget_s": 62 if q else 1100, "_timeout_s": 900 if q else 3600})
     for i, w in enumerate(("even", "odd")):
         specs.append({"name": f"pred-{i}", "fn": "shard_pred", "which": w, "quota": 12000 if q else 200000,
-                      "_budget_s": 60 if q else 1000, "_timeout_s": 900 if q else 3600})
+                      "_budget_s": 55 if q else 1000, "_timeout_s": 900 if q else 3600})
     if not q:
         specs.append({"name": "atheris", "fn": "shard_atheris", "_budget_s": 900, "_timeout_s": 2400})
     return specs
@@ -2029,7 +2036,9 @@ def finalize(m: dict, tier: str) -> list[str]:
     short_ = [f"{n}({mon.get('deep:' + n, 0)})" for n in registered if mon.get("deep:" + n, 0) < 100]
     if short_:
         out.append(f"{len(short_)} entry points received fewer than 100 inputs that got past their first field: " + ", ".join(short_[:25]))
-    for need in ("calls:stream", "calls:octets", "calls:text", "calls:json", "position:judged", "position:whole-vs-stream", "consumer-calls",
+    if tier == "thorough" and not (st.get("atheris:parsers-fuzzed") or st.get("atheris:skipped")):
+        out.append("the coverage-guided pass neither ran nor said why it was skipped")
+    for need in ("calls:stream", "calls:stream-no-tail", "calls:octets", "calls:text", "calls:json", "position:judged", "position:whole-vs-stream", "consumer-calls",
                  "consumer:tx-sighash-engine", "consumer:psbt", "calls:hex-text", "calls:text-as-bytes", "pred:BasicBlockFilter.match"):
         if not mon.get(need):
             out.append(f"monitor {need} made no observation")
